@@ -381,6 +381,13 @@ pub struct Ctx {
     /// C15: a step is executed by the real `Cpu::run()` (one loop iteration, then the run-loop hook ends the run)
     /// instead of by fetch+exec, so that run()'s own error path sees every failing instruction
     pub via_run: bool,
+    /// long programs (real compiler output, loop idioms): an open outcome (TRAPA #0, a store into a port or timer
+    /// register, an undefined encoding) does not end the lock step; what the step wrote is accepted and the walk goes on
+    /// from the state the implementation is in
+    pub continue_open: bool,
+    /// long programs are registered under several properties: a deviating step is a violation only for the property
+    /// that owns the instruction (the others stop silently; the owner's check reports it)
+    pub seq_owner: Option<&'static str>,
 }
 
 /// Built-in self-test of the comparison: perturb the reference for selected cases and require a mismatch.
@@ -427,6 +434,8 @@ impl Ctx {
             odd_pc: false,
             closed_form_cost: false,
             via_run: false,
+            continue_open: false,
+            seq_owner: None,
         }
     }
 
@@ -1177,6 +1186,12 @@ impl Ctx {
             // force a fresh decode: code may differ from the previous sequence at the same PC
             self.last_key = (0xffff_ffff, 0);
             let (dec, mut ro) = self.reference(&c, &none);
+            if self.continue_open && ro.class == Class::Ok && ro.writes.as_slice().iter().any(|w| sem::is_port_reg(w.addr) || sem::is_timer_reg(w.addr)) {
+                // peripheral registers have their own semantics (C16 / C17): the step is not judged here
+                ro.class = Class::Any;
+                ro.mem_open = true;
+                ro.note = "store into a port or timer register";
+            }
             for w in ro.writes.as_slice() {
                 self.m.expect_write_pre(w.addr);
             }
@@ -1260,6 +1275,10 @@ impl Ctx {
                 }
             }
             trace.push(format!("{:06x}:{}", pre_pc, act.text()));
+            if self.continue_open && trace.len() > 96 {
+                // long programs: keep the tail only (the counterexample names the program and the step index)
+                trace.drain(..64);
+            }
             if !self.frozen {
                 self.st.cases += 1;
                 match ro.class {
@@ -1333,6 +1352,12 @@ impl Ctx {
                 if got.is_none() || got == exp {
                     continue;
                 }
+                if open && self.continue_open {
+                    // accepted: the shadow follows the implementation, the byte is restored at the end of the sequence
+                    self.m.mark_dirty(a);
+                    self.m.accept(a);
+                    continue;
+                }
                 if !open && stray.is_none() && !self.panic_only && !self.cycles_only {
                     stray = Some((a, got.unwrap_or(0), exp.unwrap_or(0)));
                 }
@@ -1342,6 +1367,19 @@ impl Ctx {
                 }
             }
             done += 1;
+            if (diff.is_some() || stray.is_some()) && self.seq_owner.is_some() {
+                let owner = self.seq_owner.unwrap();
+                let owned = match dec {
+                    Decoded::Impl { row, .. } | Decoded::ValidUnimpl { row, .. } => super::props::xseq::owners_of(ROWS[row].sem).contains(&owner),
+                    Decoded::Undefined => owner == "C07",
+                };
+                if !owned {
+                    if !self.frozen {
+                        *self.st.notes.entry("long programs stopped at a deviation that belongs to another property's forms".into()).or_insert(0) += 1;
+                    }
+                    break;
+                }
+            }
             if let Some(d) = diff {
                 self.seq_violation(format!("step {}: {}", done - 1, d.what), init, &trace, Some(&ro), Some(&actual));
                 break;
@@ -1349,6 +1387,21 @@ impl Ctx {
             if let Some((a, got, exp)) = stray {
                 self.seq_violation(format!("step {}: stray memory write: [{:06x}] is {:02x}, must stay {:02x}", done - 1, a, got, exp), init, &trace, Some(&ro), Some(&actual));
                 break;
+            }
+            if self.continue_open && ro.class == Class::Any && matches!(actual, Actual::Ok(_)) {
+                // open outcome in a long program: go on from wherever the implementation is
+                let obs = StepObs { index: done - 1, act, pre_pc, pre_er, pre_ccr, dec, ro: &ro, actual: &actual, post_pc: self.m.cpu.vh_pc(), post_er: self.m.cpu.er, post_ccr: self.m.cpu.vh_ccr(), m: &self.m };
+                match next(&obs) {
+                    Next::Continue(a) => {
+                        act = a;
+                        continue;
+                    }
+                    Next::Stop => break,
+                    Next::Fail(msg) => {
+                        self.seq_violation(msg, init, &trace, Some(&ro), Some(&actual));
+                        break;
+                    }
+                }
             }
             if ro.class != Class::Ok || !matches!(actual, Actual::Ok(_)) {
                 // an error or an open outcome ends the lock step (nothing further is defined)
